@@ -1024,7 +1024,8 @@ def c17_one(rec, case):
         else:
             pkg.write_v2(d, spec)
         with pkg.quiet():
-            ft = Fitter([spec.wav[i] * u.micron for i in widx], theta * u.arcsec, d, extinction_law=ext, av_range=(0., 6.), distance_range=[0.3, 3.] * u.kpc, use_memmap=False)
+            fu_ = getattr(u, c.get('filt_unit', 'micron'))          # monochromatic filters may be given in any length unit
+            ft = Fitter([(spec.wav[i] * u.micron).to(fu_) for i in widx], theta * u.arcsec, d, extinction_law=ext, av_range=(0., 6.), distance_range=[0.3, 3.] * u.kpc, use_memmap=False)
         obs = spec.flux[c['m'] % c['n_models'], -1, widx] * 10. ** (1.5 * np.asarray(ft.av_law))
         src = pkg.make_source('s1', [1] * n_f, obs, obs * 0.1)
         info = ft.fit(src)
@@ -1093,7 +1094,7 @@ def run_c17(tier, seed):
         theta = sorted(rng.uniform(1., 6., n_f).tolist(), reverse=bool(t % 3 == 0))
         case = dict(seed=seed, tag='c17', pseed=int(rng.integers(1, 10 ** 6)), n_ap=n_ap, n_f=n_f, n_models=int(rng.integers(2, 7)), n_wav=int(rng.integers(8, 20)),
                     theta=theta, m=int(rng.integers(0, 6)), nsel=1 + t % 5, as_file=bool((t // 2) % 2), modes=['interp', 'largest', 'largest+smallest', 'all'],
-                    filter_order_desc=bool(t % 2 == 0), ext_unit='AA' if t % 4 == 3 else 'micron', names_unsorted=bool(t % 3 == 1), ap_desc=bool(t % 4 == 2))
+                    filter_order_desc=bool(t % 2 == 0), ext_unit='AA' if t % 4 == 3 else 'micron', names_unsorted=bool(t % 3 == 1), ap_desc=bool(t % 4 == 2), filt_unit=('nm' if t % 3 == 2 else 'micron'))
         try:
             c17_one(rec, case)
         except Exception as e:
